@@ -143,10 +143,14 @@ Print Assumptions C07_close_registry_section_ends_window.
 (* the class of change this granularity exists for: if B3 re-registers the connection when UpdateAuth does not find
    it, a CloseConnection completing between the response write and B3 leaves a closed connection registered and indexed *)
 Theorem C07_reregister_variant_refuted :
-  exists (k : cfg) (c X : N) (s : st) (r' : ctl),
-    hs_phaseA Current k c 0 X (fst (step Current k init (Accept c))) = (s, Some r') /\ write_ok c s = true /\
-    let s' := b3_reregister k c X r' (close_conn c s) in
-    by_client s' X = Some c /\ mem c (closed s') = true /\ mem c (sess s') = false.
+  exists (k : cfg) (c X : N),
+    match hs_phaseA Current k c 0 X (fst (step Current k init (Accept c))) with
+    | (s, Some r') =>
+        write_ok c s = true /\
+        let s' := b3_reregister k c X r' (close_conn c s) in
+        by_client s' X = Some c /\ mem c (closed s') = true /\ mem c (sess s') = false
+    | (_, None) => False
+    end.
 Proof. exact reregister_variant_refuted. Qed.
 Print Assumptions C07_reregister_variant_refuted.
 
